@@ -97,6 +97,7 @@ def shrink(run):
 
 
 sample_of = l0common.sample_of
+preload = l0common.preload
 
 LEVEL_TEXT = ('Seeded search over (curve, initial grids, history); the piece '
               'assignment and the three-elements-per-slab clause are checked '
